@@ -27,7 +27,7 @@ W = 'circus.watcher:Watcher.'
 
 
 def check(run, ctx):
-    run.each(ctx, [r1, r2, r3])
+    run.each(ctx, [r1, r2, r3, r4])
 
 
 def _sorted_call(fnode):
@@ -154,7 +154,8 @@ def r2(run, ctx):
             '%s no longer starts watchers through the ordered, paced routine' % g.qualname)
     sw = ctx.fn(A + 'start_watcher')
     t = norm_text(sw.node)
-    run.check('R2', 'if watcher.autostart' in t and 'yield watcher._start()' in t and
+    run.check('R2', astq.has_pattern(t, 'if $w.autostart') and
+              astq.has_pattern(t, 'yield $w._start()') and
               'yield tornado_sleep(self.warmup_delay)' in t, 'start_watcher (reloadconfig adds) '
               'is paced the same way', sw, sw.node)
     # informational: arbiter-wide reload pacing
@@ -238,3 +239,23 @@ def r3(run, ctx):
             run.check('R3', c2.dominates(ys, a), 'all workers are spawned before the watcher '
                       'counts as started', st, a.ast, '_start returns (and the next watcher '
                       'begins) before this watcher\'s workers are spawned')
+
+
+def r4(run, ctx):
+    run.rule('R4', 'the paced start sequences hold the exclusive slot (so the periodic check '
+             'cannot spawn in the middle of them)')
+    for key in (A + 'start_watchers', A + 'restart', W + 'start', W + 'restart'):
+        f = ctx.fn(key)
+        si, ci = f.deco_index('synchronized'), f.deco_index('coroutine')
+        ok = si is not None and (ci is None or si < ci)
+        run.check('R4', ok, '%s runs under the exclusive slot for its whole duration'
+                  % f.qualname, f, f.node.decorator_list[0] if f.node.decorator_list else f.node,
+                  '%s is not exclusive for its whole duration (%s): the periodic check can run '
+                  'while the paced start is sleeping between spawns and start a second spawn '
+                  'loop, so spawns come closer than warmup_delay and more than numprocesses are '
+                  'started' % (f.qualname, 'synchronized missing' if si is None else
+                               'gen.coroutine wraps synchronized, which then releases at once'),
+                  construct='%s exclusivity' % f.qualname)
+    mw = ctx.fn(A + 'manage_watchers')
+    run.check('R4', bool(mw.synchronized), 'the periodic check competes for the same slot', mw,
+              mw.node)
